@@ -9,7 +9,7 @@
 //    (lemma aria_leaf_a).
 // Round trip: SPN, so the S-box layers are abstracted by an uninterpreted *bijection pair* (SL1 = fwd, SL2 = inv;
 //    lemma aria_leaf_sl_inv shows the oracle's SL1 / SL2 are mutually inverse, lemmas aria_leaf_fo/fe/sl2 tie the
-//    real leaves to A.SL1, A.SL2, SL2); the diffusion A stays concrete (oracle form); instances of the lemmas
+//    real leaves to A.SL1, A.SL2, SL2); the diffusion A stays concrete (oracle form); consequences of the lemmas
 //    aria_leaf_a_invol / aria_leaf_a_lin (A involutive, linear) are supplied as cut assumptions so that the solver does not have to
 //    rediscover GF(2) linear algebra round by round.
 use super::prelude::*;
@@ -37,19 +37,26 @@ pub fn stub_a(x: u128) -> u128 {
 }
 // Round-trip stubs.  fo = A.SL1, fe = A.SL2, sl2 = SL2 with (SL1, SL2) an arbitrary pair of mutually inverse
 // permutations and A concrete (oracle form).  A SAT solver is poor at rediscovering GF(2)-linear algebra (parity
-// cancellation) through 12..16 chained rounds, so the stubs additionally state *instances of two proved lemmas* as
+// cancellation) through 12..16 chained rounds, so the stubs additionally state consequences of two proved lemmas as
 // assumptions (cut rule):
 //     aria_leaf_a_invol:  A(A(x)) == x                for all 2^128 x
 //     aria_leaf_a_lin:    A(x ^ y) == A(x) ^ A(y)     for all 2^256 (x, y)
-// at the terms that occur: x = s resp. e for the involution; (x, y) = (A(s), e) and (A(s), A(e)) for linearity, where
-// y' = A(s) is a round-internal application and (e, A(e)) a key-derivation pair logged by `log_a`.
-// Instances of valid lemmas never exclude an execution.
+// For a logged round-internal application y_i = A(s_i), a logged key-derivation pair (e, A(e), A(A(e))) and a later
+// application A(z):
+//     z == y_i ^ e     ==>  A(z) == s_i ^ A(e)       [A(z) = A(A(s_i) ^ e) = A(A(s_i)) ^ A(e) = s_i ^ A(e)]
+//     z == y_i ^ A(e)  ==>  A(z) == s_i ^ A(A(e))    [same with e := A(e)]
+// Both implications hold for every value of the variables (congruence + the two lemmas), so they never exclude an
+// execution; *which* instances are stated (pairing by call order) is a heuristic that only affects completeness.
 #[cfg(kani)]
 pub mod klog {
+    // key-derivation log (a called from KeyInit::new): e, A(e), A(A(e))
     pub static mut E: [u128; 16] = [0; 16];
     pub static mut AE: [u128; 16] = [0; 16];
     pub static mut AAE: [u128; 16] = [0; 16];
     pub static mut N: usize = 0;
+    // round-internal applications of A during the first block operation: s, A(s)
+    pub static mut S: [u128; 16] = [0; 16];
+    pub static mut Y: [u128; 16] = [0; 16];
     pub static mut C: usize = 0;
 }
 /// `a` in oracle form, remembering (e, A(e), A(A(e))) (only the decryption-key derivation in `new` calls `a`).
@@ -58,7 +65,6 @@ pub fn log_a(e: u128) -> u128 {
     #[cfg(kani)]
     unsafe {
         let yy = r::a(y);
-        kani::assume(yy == e); // involution at e
         let n = klog::N;
         kani::assert(n < 16, "VERIF_UF_CAPACITY");
         if n < 16 {
@@ -70,25 +76,28 @@ pub fn log_a(e: u128) -> u128 {
     }
     y
 }
-fn a_hinted(s: u128) -> u128 {
-    let y = r::a(s);
+fn a_hinted(z: u128) -> u128 {
+    let y = r::a(z);
     #[cfg(kani)]
     unsafe {
-        let ay = r::a(y);
-        kani::assume(ay == s); // involution at s
-        // Which linearity instances to state is only a heuristic (every instance is valid): the c-th round-internal
-        // application of A (c = 1..N, first of the two block operations) is followed by the addition of ek_c = E[N-c]
-        // when encrypting and of dk_c = A(ek_{n-c}) = AE[c-1] when decrypting.
+        // N keys went through `a`; each block operation applies A N times inside fo / fe.  The c-th application
+        // (c = 1..N) of the first operation is followed by the addition of ek_c = E[N-c] (encryption) resp.
+        // dk_c = AE[c-1] (decryption); the (N+m)-th application (second operation) is expected to undo the
+        // (N+1-m)-th one.
         let n = klog::N;
-        let c = klog::C + 1;
-        klog::C = c;
-        if c <= n && n <= 16 {
-            let e = klog::E[n - c];
-            let ae = klog::AE[n - c];
-            kani::assume(r::a(y ^ e) == ay ^ ae); // linearity at (A(s), e)
-            let f = klog::AE[c - 1];
-            let af = klog::AAE[c - 1];
-            kani::assume(r::a(y ^ f) == ay ^ af); // linearity at (A(s), A(e))
+        let c = klog::C;
+        klog::C = c + 1;
+        if n <= 16 {
+            if c < n {
+                klog::S[c] = z;
+                klog::Y[c] = y;
+            } else if c < 2 * n {
+                let i = 2 * n - 1 - c; // index of the application to be undone
+                let k = c - n; // key added after application i: ek_{i+1} = E[N-1-i] = E[k] resp. dk_{i+1} = AE[i]
+                let (si, yi) = (klog::S[i], klog::Y[i]);
+                kani::assume(z != yi ^ klog::E[k] || y == si ^ klog::AE[k]);
+                kani::assume(z != yi ^ klog::AE[i] || y == si ^ klog::AAE[i]);
+            }
         }
     }
     y
@@ -272,12 +281,12 @@ macro_rules! aria_rt {
     };
 }
 
-//@ harness name=aria128_rt_ed prop=C01 tier=quick bits=256 stub=1 est=120 desc="W: Aria128::new(key): decrypt_block(encrypt_block(b)) == b for all 2^128 keys and all blocks; real key schedule (ek and dk) and round loops, SL1/SL2 an uninterpreted bijection pair, A in oracle form with instances of aria_leaf_a_invol / aria_leaf_a_lin as cut assumptions"
-//@ harness name=aria128_rt_de prop=C01 tier=quick bits=256 stub=1 est=120 desc="W: Aria128::new(key): encrypt_block(decrypt_block(b)) == b for all keys and blocks; SL1/SL2 an uninterpreted bijection pair, A in oracle form with instances of aria_leaf_a_invol / aria_leaf_a_lin as cut assumptions"
+//@ harness name=aria128_rt_ed prop=C01 tier=quick bits=256 stub=1 est=120 desc="W: Aria128::new(key): decrypt_block(encrypt_block(b)) == b for all 2^128 keys and all blocks; real key schedule (ek and dk) and round loops, SL1/SL2 an uninterpreted bijection pair, A in oracle form with consequences of aria_leaf_a_invol / aria_leaf_a_lin as cut assumptions"
+//@ harness name=aria128_rt_de prop=C01 tier=quick bits=256 stub=1 est=120 desc="W: Aria128::new(key): encrypt_block(decrypt_block(b)) == b for all keys and blocks; SL1/SL2 an uninterpreted bijection pair, A in oracle form with consequences of aria_leaf_a_invol / aria_leaf_a_lin as cut assumptions"
 aria_rt!(aria128_rt_ed, aria128_rt_de, Aria128, 16);
-//@ harness name=aria192_rt_ed prop=C01 tier=quick bits=320 stub=1 est=120 desc="W: Aria192::new(key): decrypt_block(encrypt_block(b)) == b for all 2^192 keys and all blocks; SL1/SL2 an uninterpreted bijection pair, A in oracle form with instances of aria_leaf_a_invol / aria_leaf_a_lin as cut assumptions"
-//@ harness name=aria192_rt_de prop=C01 tier=quick bits=320 stub=1 est=120 desc="W: Aria192::new(key): encrypt_block(decrypt_block(b)) == b for all keys and blocks; SL1/SL2 an uninterpreted bijection pair, A in oracle form with instances of aria_leaf_a_invol / aria_leaf_a_lin as cut assumptions"
+//@ harness name=aria192_rt_ed prop=C01 tier=quick bits=320 stub=1 est=120 desc="W: Aria192::new(key): decrypt_block(encrypt_block(b)) == b for all 2^192 keys and all blocks; SL1/SL2 an uninterpreted bijection pair, A in oracle form with consequences of aria_leaf_a_invol / aria_leaf_a_lin as cut assumptions"
+//@ harness name=aria192_rt_de prop=C01 tier=quick bits=320 stub=1 est=120 desc="W: Aria192::new(key): encrypt_block(decrypt_block(b)) == b for all keys and blocks; SL1/SL2 an uninterpreted bijection pair, A in oracle form with consequences of aria_leaf_a_invol / aria_leaf_a_lin as cut assumptions"
 aria_rt!(aria192_rt_ed, aria192_rt_de, Aria192, 24);
-//@ harness name=aria256_rt_ed prop=C01 tier=quick bits=384 stub=1 est=120 desc="W: Aria256::new(key): decrypt_block(encrypt_block(b)) == b for all 2^256 keys and all blocks; SL1/SL2 an uninterpreted bijection pair, A in oracle form with instances of aria_leaf_a_invol / aria_leaf_a_lin as cut assumptions"
-//@ harness name=aria256_rt_de prop=C01 tier=quick bits=384 stub=1 est=120 desc="W: Aria256::new(key): encrypt_block(decrypt_block(b)) == b for all keys and blocks; SL1/SL2 an uninterpreted bijection pair, A in oracle form with instances of aria_leaf_a_invol / aria_leaf_a_lin as cut assumptions"
+//@ harness name=aria256_rt_ed prop=C01 tier=quick bits=384 stub=1 est=120 desc="W: Aria256::new(key): decrypt_block(encrypt_block(b)) == b for all 2^256 keys and all blocks; SL1/SL2 an uninterpreted bijection pair, A in oracle form with consequences of aria_leaf_a_invol / aria_leaf_a_lin as cut assumptions"
+//@ harness name=aria256_rt_de prop=C01 tier=quick bits=384 stub=1 est=120 desc="W: Aria256::new(key): encrypt_block(decrypt_block(b)) == b for all keys and blocks; SL1/SL2 an uninterpreted bijection pair, A in oracle form with consequences of aria_leaf_a_invol / aria_leaf_a_lin as cut assumptions"
 aria_rt!(aria256_rt_ed, aria256_rt_de, Aria256, 32);
